@@ -130,6 +130,10 @@ class Lowerer:
         g = self.node
         if n.nid in self.cuts:
             return (self.decl("cut#%d" % n.nid, "atom"), None)
+        if op == "poison":
+            from .sym import SymDomainError
+
+            raise SymDomainError("a value obtained by %s reaches an obligation" % n.args[0])
         if op == "const":
             fr = n.args[0]
             if fr.denominator == 1:
